@@ -554,6 +554,17 @@ package gocql
 // was fetched already is there
 //@ predicate iter_wf(it): it.next != nil ==> query_ready(it.next.qry) && (it.next.once.done.v != 0 ==> it.next.next != nil)
 
+// manual paging: a caller-supplied state turns automatic paging off (executeQuery then attaches no
+// follow-up page: exactly one page is fetched) and is the state sent with the request
+//@ func (q *Query) PageState
+//@   props C15
+//@   ensures result == q && q.disableAutoPage && same(q.pageState, state)
+
+//@ func (iter *Iter) PageState
+//@   props C15
+//@   modifies nothing
+//@   ensures same(result, iter.meta.pagingState)
+
 //@ func (q *Query) Context
 //@   props C15
 //@   modifies nothing
@@ -610,7 +621,13 @@ package gocql
 //@ func (is *iterScanner) Next
 //@   props C04 C05
 //@   boundary
+//@   count_calls nextIter.fetch readColumn
 //@   requires is.iter != nil
+//@   requires[C15] iter_wf(is.iter)
+//@   before[C15] nextIter.fetch: arg0 == iter.next && iter.pos >= iter.numRows && iter.err == nil
+//@   ensures[C15] old(is.iter.err) != nil ==> !result && nextIter_fetch_calls == 0 && readColumn_calls == 0
+//@   ensures[C15] old(is.iter.err) == nil && old(is.iter.pos >= is.iter.numRows) && old(is.iter.next) == nil ==> !result && nextIter_fetch_calls == 0 && readColumn_calls == 0
+//@   ensures[C15] result && old(is.iter.pos < is.iter.numRows) ==> is.iter == old(is.iter) && is.iter.pos == old(is.iter.pos) + 1 && nextIter_fetch_calls == 0
 //@   assume is.iter.pos < is.iter.numRows ==> is.iter.framer != nil
 //@   loop 0: invariant 0 <= i
 
